@@ -72,7 +72,7 @@ fn op(re: &Regex, kind: usize, text: &str) -> String {
 /// Which operation thread `t` performs as its `k`-th: the first operation of threads 0 and 2 is the
 /// metadata one (first concurrent use of anything lazily built), the rest rotate through the API.
 fn kind_of(t: usize, k: usize, which: usize) -> usize {
-    if k == 0 && t != 1 {
+    if k == 0 {
         4
     } else {
         t + k + which
@@ -80,8 +80,20 @@ fn kind_of(t: usize, k: usize, which: usize) -> usize {
 }
 
 fn main() {
-    // which scenario: argv[1] (default 0). Kept tiny: Miri interprets every instruction.
-    let which: usize = std::env::args().nth(1).and_then(|s| s.parse().ok()).unwrap_or(0);
+    // argv: <scenario> [<expected>]   run the threads; compare with <expected> when given (the
+    //                                  runner computes it natively with `solo`, which halves the
+    //                                  interpreted work), otherwise with a second, fresh regex
+    //       solo <scenario>            print the reference results (every call alone on a fresh
+    //                                  regex, single-threaded) in the encoding `run` expects
+    // Kept tiny: Miri interprets every instruction.
+    let args: Vec<String> = std::env::args().skip(1).collect();
+    let solo_mode = args.first().map(|s| s.as_str()) == Some("solo");
+    let which: usize = args.get(if solo_mode { 1 } else { 0 }).and_then(|s| s.parse().ok()).unwrap_or(0);
+    let expected: Option<Vec<Vec<String>>> = if solo_mode {
+        None
+    } else {
+        args.get(1).map(|e| e.split('\u{2}').map(|t| t.split('\u{1}').map(|x| x.to_string()).collect()).collect())
+    };
     // (pattern, texts): a VM program with a capture-carrying Delegate, a backreference program,
     // and a pattern delegated as a whole (regex-automata's cache pool)
     let scenarios: [(&str, [&str; 3]); 4] = [
@@ -91,18 +103,21 @@ fn main() {
         (r"(?<w>[a-z]+)(?<n>[0-9])?(?=!)", ["ab1!", "x! y2!", "zz"]),
     ];
     let (pattern, texts) = scenarios[which % scenarios.len()];
-    let re = Arc::new(Regex::new(pattern).expect("pattern compiles"));
+    // The regex the threads share is NOT touched before they start: whatever it builds lazily is
+    // built under concurrency. The reference results come from a second, fresh regex (below).
     let n_threads = 3;
     let ops_per_thread = 2;
-    // solo reference: every call alone, before any thread exists
-    let mut solo = Vec::new();
-    for t in 0..n_threads {
-        let mut v = Vec::new();
-        for k in 0..ops_per_thread {
-            v.push(op(&re, kind_of(t, k, which), texts[(t + k) % texts.len()]));
-        }
-        solo.push(v);
+    let solo_of = |fresh: &Regex, t: usize| -> Vec<String> {
+        (0..ops_per_thread).map(|k| op(fresh, kind_of(t, k, which), texts[(t + k) % texts.len()])).collect()
+    };
+    if solo_mode {
+        let lines: Vec<String> = (0..n_threads)
+            .map(|t| solo_of(&Regex::new(pattern).expect("pattern compiles"), t).join("\u{1}"))
+            .collect();
+        print!("{}", lines.join("\u{2}"));
+        return;
     }
+    let re = Arc::new(Regex::new(pattern).expect("pattern compiles"));
     let mut handles = Vec::new();
     for t in 0..n_threads {
         // thread 2 works through a clone made while the others may already be searching
@@ -122,16 +137,24 @@ fn main() {
             v
         }));
     }
+    let results: Vec<Option<Vec<String>>> = handles.into_iter().map(|h| h.join().ok()).collect();
+    // solo reference: given by the runner, or every call alone on a freshly compiled regex
+    let fresh = if expected.is_none() { Some(Regex::new(pattern).expect("pattern compiles")) } else { None };
     let mut bad = false;
-    for (t, h) in handles.into_iter().enumerate() {
-        match h.join() {
-            Ok(v) => {
-                if v != solo[t] {
-                    eprintln!("C18-MISMATCH scenario {} thread {}: concurrent {:?} solo {:?}", which, t, v, solo[t]);
+    for (t, got) in results.into_iter().enumerate() {
+        let solo: Vec<String> = match (&expected, &fresh) {
+            (Some(e), _) => e.get(t).cloned().unwrap_or_default(),
+            (None, Some(f)) => solo_of(f, t),
+            (None, None) => unreachable!(),
+        };
+        match got {
+            Some(v) => {
+                if v != solo {
+                    eprintln!("C18-MISMATCH scenario {} thread {}: concurrent {:?} solo {:?}", which, t, v, solo);
                     bad = true;
                 }
             }
-            Err(_) => {
+            None => {
                 eprintln!("C18-MISMATCH scenario {} thread {} panicked", which, t);
                 bad = true;
             }
